@@ -115,6 +115,7 @@ class World:
         self.draws = []  # (name, length, value) of every RNG draw, in order
         self.t_ns = t_ns
         self.kdf_calls = 0
+        self.kdf_new = 0
         self.kdf_log = []  # captured constructor arguments (C03)
         self.origin = {}
         self.distinct = set()
@@ -188,20 +189,21 @@ class World:
     def kdf(self, algorithm, secret, label, context, length):
         self.kdf_calls += 1
         self.c.count("kdf")
-        if self.kdf_calls > self.KDF_CAP:
-            if self.c.symbolic:
-                from symex.engine import BudgetExceeded
-
-                raise BudgetExceeded(f"more than {self.KDF_CAP} key-derivation steps")
-            from vlib.api import NativeBudget
-
-            raise NativeBudget()
         length = self.c.concretize(length)
         key = (algorithm.name, bytes(label), length)
         recs = self.kdf_records.setdefault(key, [])
         hit = lookup(recs, (secret, context), self)
         if hit is not None:
             return hit[1]
+        self.kdf_new += 1
+        if self.kdf_new > self.KDF_CAP:  # distinct derivations: a runaway derivation loop produces a new one per iteration
+            if self.c.symbolic:
+                from symex.engine import BudgetExceeded
+
+                raise BudgetExceeded(f"more than {self.KDF_CAP} distinct key-derivation steps")
+            from vlib.api import NativeBudget
+
+            raise NativeBudget()
         out = self.fresh("kdf", length)
         recs.append(((secret, context), out))
         return out
